@@ -13,6 +13,7 @@ import (
 	"path/filepath"
 	"strings"
 	"sync"
+	"sync/atomic"
 
 	"github.com/go-python/gpython/py"
 	"github.com/go-python/gpython/stdlib/marshal"
@@ -46,6 +47,30 @@ type context struct {
 	closed    bool
 	running   int
 	done      chan struct{}
+	depth     int32 // frames being executed in this context (see EnterRecursiveCall)
+}
+
+// recursionLimit is the number of nested frame executions a context
+// allows (CPython's default recursion limit)
+const recursionLimit = 1000
+
+// EnterRecursiveCall is called by the vm before it executes a frame of
+// this context. Beyond recursionLimit nested executions it returns
+// RuntimeError: an unbounded recursion would otherwise overflow the
+// Go stack, which aborts the whole process. The depth is counted per
+// context, so programs executing concurrently in one context share
+// the limit.
+func (ctx *context) EnterRecursiveCall() error {
+	if atomic.AddInt32(&ctx.depth, 1) > recursionLimit {
+		atomic.AddInt32(&ctx.depth, -1)
+		return py.ExceptionNewf(py.RuntimeError, "maximum recursion depth exceeded")
+	}
+	return nil
+}
+
+// LeaveRecursiveCall is called by the vm when a frame stops executing
+func (ctx *context) LeaveRecursiveCall() {
+	atomic.AddInt32(&ctx.depth, -1)
 }
 
 // NewContext creates a new gpython interpreter instance context.
